@@ -56,7 +56,7 @@ PROPS = {
                                               "`T: AddAssign` is modelled by a spec function add_spec(old, new) (arbitrary, possibly non-commutative); `a += b` is desugared to AddAssign::add_assign(&mut a, b) (N16)",
                                               "FromIterator/Extend loops over a generic IntoIterator are not under contract (they call add once per pair in iteration order); the `&mut ChangeSet` non-lending Join member (SharedGetMutOnly) is not under contract"]),
     'C15': dict(units=['marker'], witness='misc',
-                assumptions=["REDUCED to the id-allocation core: SimpleMarkerAllocator::allocate / retrieve_entity_internal / SimpleMarker::id. The load driver (serde), MarkerAllocator::retrieve_entity and mark (they create through the shared entities resource while a WriteStorage borrows it: not expressible under the N3 sequentialisation; mark also uses a closure capturing &mut), maintain (iterator adaptors) and the UUID allocator are outside",
+                assumptions=["REDUCED to the id-allocation core: SimpleMarkerAllocator::allocate / retrieve_entity_internal / SimpleMarker::id and the same functions of UuidMarkerAllocator. The load driver (serde), MarkerAllocator::retrieve_entity and mark (they create through the shared entities resource while a WriteStorage borrows it: not expressible under the N3 sequentialisation; mark also uses a closure capturing &mut), maintain (iterator adaptors) are outside; the UUID allocator's allocate / retrieve_entity_internal are under contract with uuid::Uuid modelled as a 128-bit value and Uuid::new_v4() arbitrary (non-collision of random ids is not claimed)",
                              "machine arithmetic: an explicit id must be < u64::MAX and fewer than 2^64 marks are counted; for id == u64::MAX `self.index = id + 1` overflows (panic in debug, wrap to 0 in release, after which fresh ids can collide) — recorded in DESIGN.md §7 as an edge-input observation outside the contract",
                              "std::collections::HashMap behaves as vstd's map model for u64 keys (vstd's assumed specification of std)"]),
     'C11': dict(units=['data'], witness=None,
